@@ -35,6 +35,11 @@ PROPS["C02"] = {
          "invariants": ["StoreIsKeptOfOffered", "Normalized", "HeadsExact"], "properties": ["StepOk"],
          "tiers": ("thorough",)},
     ],
+    # unbounded (TLAPS): domination is a strict partial order; one insertion into a normalized store is the join with the
+    # entry; Kept(Kept(A) u {e}) = Kept(A u {e}) for finite A - i.e. the inductive step of store = Kept(offered) for keys,
+    # timestamps, hashes and sets of any size; the prefix relation on byte strings is a partial order
+    "proofs": [{"module": "EntriesProof", "states": "DomIrreflexive, DomTransitive, PutIsKept, FiniteCovered, Absorb, StepKeepsInvariant"},
+               {"module": "BytesProof", "states": "KPRefl, KPTrans, KPAntisym"}],
     "sensitivity": [
         {"base": "replica-quick", "flip": {"ParentsSeeMarkers": "FALSE"}, "tiers": ("quick",)},
         {"base": "replica-quick", "flip": {"EmptyKeyIsParent": "FALSE"}, "tiers": ("quick",)},
